@@ -200,6 +200,15 @@ func (e *lsEnv) dropUnder(c string) {
 	}
 }
 
+// fpString: the fingerprint string a build of the repository at canonical source c records under options hash oh
+func (e *lsEnv) fpString(oh, c string) string {
+	rp := e.repos[c]
+	if rp == nil {
+		return ""
+	}
+	return oh + "|" + e.head[rp.ver] + "|" + lsURLs[rp.url] + "|"
+}
+
 func (e *lsEnv) internFP(s string) uint64 {
 	if v, ok := e.intern[s]; ok {
 		return v
@@ -702,9 +711,8 @@ func lsHas(xs []string, x string) bool {
 }
 
 // step runs command c as a preview and then forced on the current state. which: "C33" or "C34" selects the oracles.
-func (e *lsEnv) step(c lsCmd, which string, history []string) lsStepResult {
+func (e *lsEnv) step(c lsCmd, which string, history []string) (res lsStepResult) {
 	t := e.t
-	res := lsStepResult{}
 	invBefore := e.readInv()
 	tree := lsTreeTerm(t, e.w, "")
 	oh := ""
@@ -1018,6 +1026,39 @@ func (e *lsEnv) step(c lsCmd, which string, history []string) lsStepResult {
 		lsLinesTerm(dry), cN(ds), lsLinesTerm(force), cN(fsx), cBool(lockErr == nil), lsInvTerm(invAfter))
 	nrm, nidx, nutd := len(lsNames(dry, "would-remove")), len(lsNames(dry, "would-index")), len(lsNames(dry, "up-to-date"))
 	res.nontrivial = nrm+nidx > 0 || ds != 0
+	// which IndexState branch each previewed decision came from (measured, for the evidence histogram)
+	var why []string
+	if !c.remove {
+		byFile := map[string]lsShard{}
+		for _, sh := range invBefore {
+			byFile[sh.file] = sh
+		}
+		wr := lsNames(dry, "would-remove")
+		for _, l := range dry {
+			if l.kind != "would-index" && l.kind != "up-to-date" {
+				continue
+			}
+			sh, ok := byFile[shardFile(l.name)]
+			want := e.fpString(oh, l.source)
+			switch {
+			case l.kind == "up-to-date":
+				why = append(why, "decision=equal")
+			case !ok:
+				why = append(why, "decision=missing")
+			case lsHas(wr, sh.file) && sh.fpstr == want:
+				why = append(why, "decision=pruned-but-otherwise-equal(moved)")
+			case lsHas(wr, sh.file):
+				why = append(why, "decision=pruned-and-stale")
+			case strings.SplitN(sh.fpstr, "|", 2)[0] != strings.SplitN(want, "|", 2)[0]:
+				why = append(why, "decision=option-mismatch")
+			case strings.Split(sh.fpstr, "|")[1] != strings.Split(want, "|")[1]:
+				why = append(why, "decision=content-mismatch")
+			default:
+				why = append(why, "decision=meta-mismatch")
+			}
+		}
+	}
+	defer func() { res.class = append(res.class, why...) }()
 	res.class = []string{kind, fmt.Sprintf("status=%d", ds), fmt.Sprintf("removals=%d", min(nrm, 3)), fmt.Sprintf("index=%d", min(nidx, 3)), fmt.Sprintf("uptodate=%d", min(nutd, 3))}
 	res.sample = map[string]any{"command": strings.Join(e.args(c, false), " "), "preview": dryOut, "forced": forceOut, "status": ds, "preview_error": fmt.Sprint(dryErr), "forced_error": fmt.Sprint(forceErr)}
 	return res
@@ -1295,6 +1336,11 @@ func lsRun(t *testing.T, which string, n int) {
 		}
 		if e.r.Chance(15) {
 			os.MkdirAll(e.idx, 0o755) // empty index directory instead of a missing one
+		}
+		if e.r.Chance(60) { // start most histories from an index that is up to date for some root set (set-up, not a case)
+			pre := lsCmd{roots: e.pickRoots()}
+			e.exec(pre, true)
+			history = append(history, "setup: "+strings.Join(e.args(pre, true), " "))
 		}
 		steps := 3 + e.r.Intn(4)
 		for st := 0; st < steps && cases < n; st++ {
